@@ -75,6 +75,19 @@ func ruleC16a(c *Ctx) {
 			c.check(returned, p.fname(fn), "the Decode error is the reader's result", p.ipos(call), "returned directly", "a syntax error in the body is not reported")
 		})
 	}
+	// no entity is decoded by a function that cannot be told to keep numbers (round 19): json.Unmarshal on the request path
+	for _, fn := range p.requestPathFuncs() {
+		eachInstr(fn, func(i ssa.Instruction) {
+			cc := callCommon(i)
+			if cc == nil || cc.StaticCallee() == nil || cc.StaticCallee().Pkg == nil {
+				return
+			}
+			if cc.StaticCallee().Pkg.Pkg.Path() == "encoding/json" && cc.StaticCallee().Name() == "Unmarshal" {
+				c.bad(p.fname(fn), "UseNumber is set on the decoder before Decode", p.ipos(i),
+					"json.Unmarshal decodes numbers into float64 and cannot be told otherwise: on this path 64-bit integers read into interface{} lose precision")
+			}
+		})
+	}
 	if n == 0 {
 		c.bad("-", "JSON entity reader", "-", "no Decode on a decoder with UseNumber found in an entity reader")
 	}
